@@ -28,7 +28,10 @@ def same(impl, pred):
     return impl == pred
 
 
-def differential(ctx, cases, impl_exe, model_exe, variant="asan", oracle=None, shards=None, impl_env=None):
+def differential(ctx, cases, impl_exe, model_exe, variant="asan", oracle=None, shards=None, impl_env=None, observe=None):
+    """observe(line, impl_out, spec_out) -> bool: a disagreement on this case asks for more than the
+    property states (e.g. decrypt-direction aliasing); it is printed as an OBSERVATION line and stored in
+    ctx.observations (evidence key `observations`), never as a VIOLATION."""
     lines = [c[0] for c in cases]
     t0 = time.time()
     impl, impl_err = core.run_lines(impl_exe, lines, shards=shards, env=impl_env)
@@ -55,6 +58,15 @@ def differential(ctx, cases, impl_exe, model_exe, variant="asan", oracle=None, s
                 ctx.count("predicted-deviation-absent")
             if i % max(1, len(cases) // 6) == 0:
                 ctx.sample({"op": line[:300], "result": a[:130]})
+            continue
+        if verdict is None and observe is not None and observe(line, a, spec):
+            if not hasattr(ctx, "observations"):
+                ctx.observations = []
+            ctx.count("observation:" + cell)
+            if not any(o["key"] == cell for o in ctx.observations):
+                ctx.observations.append({"key": cell, "variant": variant, "op": line[:400], "impl": a[:200], "model": spec[:200]})
+                print("OBSERVATION: property=%s key=%s [%s] outside the property text (not a violation): op `%s` impl=%s model=%s"
+                      % (ctx.prop, cell, variant, line[:120], a[:60], spec[:60]))
             continue
         bad.append(i)
         if verdict is None:
